@@ -90,7 +90,7 @@ def login_joins(chk, java_hex):
     from minecraft.exceptions import YggdrasilError
     rng = chk.rng
     secret = bytes(range(200, 216))
-    for sid in ('srv', '', 'e\u0301x', '\ufeffid'):
+    for sid in ('srv', '', 'e\u0301x', '\ufeffid', '-2d5e9c0f31aa7b44', '--', 'a-', ' -'):      # only the id '-' itself means offline mode
         for mode in ('accept', 'refuse-403', 'refuse-403-then-accept', 'refuse-500'):
             pv = rng.choice([47, 340, 757])
             ids = proto.Ids(pv)
